@@ -36,6 +36,8 @@ CATALOGUE = [
      ('f', 'top/pkg/a'), ('f', 'top/Pkg/src/x'), ('f', 'TOP/pkg/src/lib/mod.py')],
     # 13: two symmetric branches, each with a symlink to a third directory tree (no cycle)
     [('f', 'o/d/x/f'), ('f', 'p/d/x/f'), ('f', 'q/d/x/f'), ('l', 'p/lnk', '../o'), ('l', 'q/lnk', '../o'), ('f', 'o/d/f'), ('f', 'p/f')],
+    # 14: names containing a newline (directories and files): `.` and `$` in a regex do not mean "any character" / "end of string"
+    [('d', 'a\nb'), ('f', 'a\nb/x'), ('f', 'n\n'), ('d', 'd'), ('f', 'd/\n'), ('f', '\nlead'), ('d', 't\n'), ('f', 't\n/y'), ('f', 'plain')],
 ]
 
 NAME_POOL = ['a', 'b', 'A', 'ab', 'a.b', '.h', '.hd', 'x1', 'd', 'e', '[a]', 'a*']
